@@ -35,14 +35,18 @@ impl<OS> OrdRoute<'_, OS> {
     fn eligible(self) -> Result<Self, DecisionError> {
         use DecisionErrorType as DET;
 
-        // Mandatory path attribute Origin must be present.
-        if !self.pa_map.contains::<Origin>() {
+        // Mandatory path attribute Origin must be present. Note that we
+        // check for an actual Origin value: the PaMap might hold something
+        // else for the ORIGIN type code (e.g. PathAttribute::Invalid, which
+        // is what PaMap::from_update_pdu stores for a malformed attribute).
+        if self.pa_map.get::<Origin>().is_none() {
             return Err(DET::MissingOrigin.into());
         }
 
         // Mandatory path attribute AS_PATH must be present but might be
-        // empty.
-        if !self.pa_map.contains::<HopPath>() {
+        // empty. As for Origin, it must be an actual HopPath: `cmp` panics
+        // on routes it can not get a HopPath from.
+        if self.pa_map.get::<HopPath>().is_none() {
             return Err(DET::MissingAsPath.into());
         }
 
